@@ -468,7 +468,7 @@ func (r *updRunner) compare(ms tla.Rec, view map[string]updView) string {
 // TestUpdate replays TLC-simulated behaviours of Update.tla (VERIF_SIM_DIR).
 func TestUpdate(t *testing.T) {
 	dir := os.Getenv("VERIF_SIM_DIR")
-	if dir == "" {
+	if dir == "" && os.Getenv("VERIF_DOT") == "" {
 		t.Skip()
 	}
 	res := drv.NewResult("update")
@@ -478,11 +478,52 @@ func TestUpdate(t *testing.T) {
 		}
 	}()
 	T := drv.EnvInt("VERIF_T", 2)
+	shard, shards := drv.EnvInt("VERIF_SHARD", 0), drv.EnvInt("VERIF_SHARDS", 1)
+	if dot := os.Getenv("VERIF_DOT"); dot != "" {
+		// every edge of the (small) exhaustively checked graph: after its shortest path, continued to a state in which
+		// nothing is left to do (all calls returned, nothing in flight)
+		g, err := tla.LoadDot(dot)
+		if err != nil {
+			t.Fatal(err)
+		}
+		if shard == 0 {
+			res.Add("graph_states", len(g.Nodes))
+			res.Add("graph_edges", g.NEdges)
+		}
+		compl := g.CompletionTo(func(nd *tla.Node) bool {
+			for _, e := range nd.Out {
+				if e.Dst != nd {
+					return false
+				}
+			}
+			return true
+		})
+		n := 0
+		for _, nd := range g.Nodes {
+			path := g.PathTo(nd)
+			for _, e := range nd.Out {
+				n++
+				if n%shards != shard || e.Dst == nd {
+					continue
+				}
+				e.MarkHit()
+				b := []tla.SimStep{{State: g.Inits[0].State}}
+				for _, pe := range append(append(append([]*tla.Edge{}, path...), e), compl.From(e.Dst)...) {
+					b = append(b, tla.SimStep{Act: pe.Act, State: pe.Dst.State})
+				}
+				res.Add("graph_behaviours", 1)
+				res.Add("model_steps", len(b)-1)
+				runUpdateBehaviours(t, res, [][]tla.SimStep{b}, T, n)
+			}
+		}
+		hit, _ := g.HitCount()
+		res.Add("edges_executed", hit)
+		return
+	}
 	all, err := tla.LoadSimDir(dir)
 	if err != nil {
 		t.Fatal(err)
 	}
-	shard, shards := drv.EnvInt("VERIF_SHARD", 0), drv.EnvInt("VERIF_SHARDS", 1)
 	for i, b := range all {
 		if i%shards != shard {
 			continue
